@@ -41,8 +41,9 @@ static void power_on(void) {
   Vhex___024root___ctor_var_reset(&S.TOP); Vhex_hex___ctor_var_reset(&S.TOP__hex);
   Vhex_memory___ctor_var_reset(&S.TOP__hex__u_memory); Vhex_processor___ctor_var_reset(&S.TOP__hex__u_processor);
   S.TOP.__VactContinue = vl_rand_reset_i(1); S.TOP.__VstlIterCount = nondet_u32(); S.TOP.__VicoIterCount = nondet_u32(); S.TOP.__VactIterCount = nondet_u32();
-  S.TOP.__VstlTriggered.m_flags[0] = nondet_int() & 1; S.TOP.__VicoTriggered.m_flags[0] = nondet_int() & 1;
-  S.TOP.__VactTriggered.m_flags[0] = nondet_int() & 1; S.TOP.__VnbaTriggered.m_flags[0] = nondet_int() & 1;
+#define VL_E_(k) (nondet_int() & 1)
+  VL_TV_ALL(S.TOP.__VstlTriggered, VL_E_); VL_TV_ALL(S.TOP.__VicoTriggered, VL_E_); VL_TV_ALL(S.TOP.__VactTriggered, VL_E_); VL_TV_ALL(S.TOP.__VnbaTriggered, VL_E_);
+#undef VL_E_
   S.__Vm_didInit = false;
 }
 
